@@ -1,0 +1,32 @@
+/*
+ * Verification hooks (deterministic simulation harness, /verif).
+ *
+ * Compiled in only with -DLIBERASURECODE_VERIF; without it every macro below
+ * expands to nothing and the library is unchanged.  With it, the macros call
+ * a weak, normally undefined function: nothing happens unless the process that
+ * loads the library defines liberasurecode_verif_hook().
+ *
+ *   VERIF_ACCESS_R/W(obj, site)  shared-state access annotation (+ yield point)
+ *   VERIF_YIELD(site)            plain yield point
+ *   VERIF_FREE(obj, site)        object about to be freed
+ */
+#ifndef _ERASURECODE_VERIF_H_
+#define _ERASURECODE_VERIF_H_
+
+#ifdef LIBERASURECODE_VERIF
+extern void liberasurecode_verif_hook(int kind, const void *obj, const char *site)
+    __attribute__((weak));
+#define VERIF_HOOK(kind, obj, site) \
+    do { if (liberasurecode_verif_hook) liberasurecode_verif_hook((kind), (obj), (site)); } while (0)
+#define VERIF_ACCESS_R(obj, site) VERIF_HOOK(0, (obj), (site))
+#define VERIF_ACCESS_W(obj, site) VERIF_HOOK(1, (obj), (site))
+#define VERIF_YIELD(site)         VERIF_HOOK(2, NULL, (site))
+#define VERIF_FREE(obj, site)     VERIF_HOOK(3, (obj), (site))
+#else
+#define VERIF_ACCESS_R(obj, site) ((void)0)
+#define VERIF_ACCESS_W(obj, site) ((void)0)
+#define VERIF_YIELD(site)         ((void)0)
+#define VERIF_FREE(obj, site)     ((void)0)
+#endif
+
+#endif  // _ERASURECODE_VERIF_H_
